@@ -234,8 +234,126 @@ def lim_step(sym, cov, loop, nb, nq, op):
     chk(st.borrowed_tokens == len(lim._borrowers) and st.tasks_waiting == len(lim._wait_queue) and st.total_tokens == lim.total_tokens, "lim:statistics")
 
 
+def adapter_step(sym, cov, kind):
+    """The primitive is instantiated OUTSIDE the event loop (SemaphoreAdapter / CapacityLimiterAdapter, bound to a backend
+    object on first use inside the loop) and then driven through a symbolic sequence of synchronous operations: every
+    reported number and every accept/reject decision equals a counter model, in particular max_value / total_tokens given
+    at construction time are honoured by the object that is created later."""
+    import anyio
+    from anyio import WouldBlock
+
+    viol = []
+
+    def bad(c, d=None):
+        viol.append((c, d))
+
+    if kind == "sem":
+        value = sym.int("value", 0, 3)
+        has_max = sym.bool("has_max")
+        maxv = sym.int("max", 0, 3)
+        sym.assume((not has_max) or value <= maxv)
+        fast = sym.bool("fast")
+        prim = anyio.Semaphore(value, max_value=maxv if has_max else None, fast_acquire=fast)
+        ops = [sym.int("op%d" % i, 0, 1) for i in range(3)]  # 0 release, 1 acquire_nowait
+    else:
+        total = sym.int("total", 1, 3)
+        prim = anyio.CapacityLimiter(total)
+        ops = [sym.int("op%d" % i, 0, 2) for i in range(3)]  # 0 release_on_behalf_of, 1 acquire_on_behalf_of_nowait, 2 total_tokens = nv
+        nvs = [sym.int("nv%d" % i, 1, 4) for i in range(3)]
+        who = [sym.int("who%d" % i, 0, 1) for i in range(3)]
+    chk(type(prim).__name__.endswith("Adapter"), "harness-error:expected-an-adapter", type(prim).__name__)
+
+    class _B:
+        pass
+
+    objs = [_B(), _B()]
+
+    async def main():
+        if kind == "sem":
+            v = value
+            if prim.value != v or prim.max_value != (maxv if has_max else None):
+                bad("sem:adapter-reports-wrong-initial-state", {"value": prim.value, "max_value": prim.max_value})
+            for i, op in enumerate(ops):
+                if op == 0:
+                    try:
+                        prim.release()
+                        ok = True
+                    except ValueError:
+                        ok = False
+                    if has_max and v == maxv:
+                        cov.hit("adapter:sem-reject-max")
+                        if ok:
+                            bad("sem:release-beyond-max-accepted", {"value": v, "max_value": maxv, "created": "outside the event loop"})
+                    else:
+                        if not ok:
+                            bad("sem:release-rejected", {"value": v})
+                        v += 1
+                else:
+                    try:
+                        prim.acquire_nowait()
+                        ok = True
+                    except WouldBlock:
+                        ok = False
+                    if v == 0:
+                        if ok:
+                            bad("sem:acquire-nowait-without-permit")
+                    else:
+                        if not ok:
+                            bad("sem:acquire-nowait-refused-with-permit")
+                        v -= 1
+                if prim.value != v:
+                    bad("sem:value-differs-from-true-count", {"reported": prim.value, "true": v, "after_op": i})
+                if prim.max_value != (maxv if has_max else None):
+                    bad("sem:max_value-changed", prim.max_value)
+        else:
+            tot = total
+            held = set()
+            for i, op in enumerate(ops):
+                b = who[i]
+                if op == 0:
+                    try:
+                        prim.release_on_behalf_of(objs[b])
+                        ok = True
+                    except RuntimeError:
+                        ok = False
+                    if ok != (b in held):
+                        bad("lim:release-decision-wrong", {"held": sorted(held), "who": b, "accepted": ok})
+                    held.discard(b)
+                elif op == 1:
+                    try:
+                        prim.acquire_on_behalf_of_nowait(objs[b])
+                        res = "ok"
+                    except WouldBlock:
+                        res = "wouldblock"
+                    except RuntimeError:
+                        res = "error"
+                    want = "error" if b in held else ("ok" if len(held) < tot else "wouldblock")
+                    if res != want:
+                        bad("lim:acquire-decision-wrong", {"held": sorted(held), "total": tot, "who": b, "got": res, "want": want})
+                    if res == "ok":
+                        held.add(b)
+                else:
+                    prim.total_tokens = nvs[i]
+                    tot = nvs[i]
+                    cov.hit("adapter:lim-total-reassigned-after-binding", i > 0)
+                if prim.total_tokens != tot or prim.borrowed_tokens != len(held) or prim.available_tokens != tot - len(held):
+                    bad("lim:reported-counts-differ-from-true-counts", {"total": [prim.total_tokens, tot], "borrowed": [prim.borrowed_tokens, len(held)],
+                                                                         "available": [prim.available_tokens, tot - len(held)], "after_op": i})
+                st = prim.statistics()
+                if st.total_tokens != tot or st.borrowed_tokens != len(held):
+                    bad("lim:statistics-differ-from-true-counts", {"after_op": i})
+
+    VLoop().run(main(), max_cycles=50)
+    chk(not viol, viol[0][0] if viol else "", viol[:3])
+
+
+MUST_REACH = MUST_REACH + ["adapter:sem-reject-max", "adapter:lim-total-reassigned-after-binding"]
+
+
 def units(tier):
     us = []
+    for kind in ("sem", "lim"):
+        us.append({"name": "adapter %s (created outside the loop), 3 operations" % kind, "fn": adapter_step, "params": {"kind": kind}, "budget_s": 120})
     for nq in range(0, 4):
         us.append({"name": "sem nq=%d" % nq, "fn": sem_step, "params": {"nq": nq}, "budget_s": 60, "certify": nq <= 1})
     maxb = 3 if tier == "quick" else 4
